@@ -132,6 +132,21 @@ def run_module_configs(rep, tier):
                     fails.append({"stream": "c16", "why": ["with -header_file, the output for package tiny%d generated together with other packages (%s) "
                                                            "differs from the output generated alone / from header + plain output" % (k, label)],
                                   "alone": (alone[k] or "<none>")[:800], "together": (got[k] or "<none>")[:800]})
+        # the way the header file is named on the command line (relative to another directory, absolute) is no part of the output
+        for k in range(2):
+            for label, argv, cwd in (("relative header path, from the package directory", ["gen", "-header_file", "../hdr.txt", "."], "%s/tiny%d" % (base, k)),
+                                     ("relative header path, from the module root", ["gen", "-header_file", "hdr.txt", "./tiny%d" % k], base),
+                                     ("header path through a detour", ["gen", "-header_file", "tiny%d/../hdr.txt" % k, "./tiny%d" % k], base)):
+                tiny_clean()
+                run([WIRE] + argv, cwd=cwd, env=dict(GOENV), timeout=120)
+                got = tiny_out()[k]
+                configs += 1
+                rep.evaluations += 1
+                if got != alone[k]:
+                    fails.append({"stream": "c16", "why": ["with -header_file, the output for package tiny%d depends on how the header file is named (%s)" % (k, label)],
+                                  "reference": (alone[k] or "<none>")[:800], "other": (got or "<none>")[:800]})
+            if alone[k] and (base in alone[k] or "/tmp/" in alone[k]):
+                fails.append({"stream": "c16", "why": ["the output generated with -header_file <absolute path> mentions a run-specific path"], "output": alone[k][:800]})
         if os.path.exists(base + "/hdr.txt"):
             os.remove(base + "/hdr.txt")
         # nothing run-specific in the output
